@@ -79,6 +79,8 @@ type lgWalker struct {
 	exported bool          // enclosing declared function is exported / usable from outside
 	curCall  *ast.CallExpr
 	frame    int // current activation depth (closures executed in place count as activations)
+
+	stopGuarded map[string]bool // object expressions dominated by a "StopTime() == 0 -> leave" guard
 }
 
 // exit: control leaves the current activation at pos; every lock this activation acquired must
@@ -490,14 +492,92 @@ func terminates(s ast.Stmt) bool {
 // block walks a statement list; returns the locks held afterwards and whether control cannot
 // fall off the end.
 func (lw *lgWalker) block(stmts []ast.Stmt, held []heldLock) ([]heldLock, bool) {
+	// stop guards are scoped to the block: x := obj.StopTime(); if x == 0 { continue / return }
+	// dominates the statements that follow it in this block (and the blocks nested in them)
+	savedGuard := lw.stopGuarded
+	stopVars := map[string]string{} // variable -> object expression whose StopTime() it holds
+	defer func() { lw.stopGuarded = savedGuard }()
 	for _, s := range stmts {
 		var term bool
 		held, term = lw.stmt(s, held)
 		if term {
 			return held, true
 		}
+		lw.noteStopGuard(s, stopVars)
 	}
 	return held, false
+}
+
+// noteStopGuard recognises, after statement s of the current block has been walked,
+//
+//	v := <obj>.StopTime()                 (Client.StopTime: atomic load of State.disconnected)
+//	if v == 0 { continue | return }       (nothing else in the body, no else)
+//
+// and marks <obj> as guarded for the rest of the block.
+func (lw *lgWalker) noteStopGuard(s ast.Stmt, stopVars map[string]string) {
+	switch x := s.(type) {
+	case *ast.AssignStmt:
+		for i, l := range x.Lhs {
+			id, ok := l.(*ast.Ident)
+			if !ok {
+				continue
+			}
+			delete(stopVars, id.Name)
+			if len(x.Lhs) != len(x.Rhs) {
+				continue
+			}
+			c, ok := x.Rhs[i].(*ast.CallExpr)
+			if !ok || len(c.Args) != 0 {
+				continue
+			}
+			sel, ok := c.Fun.(*ast.SelectorExpr)
+			if !ok || sel.Sel.Name != "StopTime" {
+				continue
+			}
+			if sl := lw.p.info.Selections[sel]; sl != nil && sl.Kind() == types.MethodVal && lw.w.typeName(sl.Recv()) == "Client" {
+				stopVars[id.Name] = types.ExprString(sel.X)
+			}
+		}
+	case *ast.IfStmt:
+		if x.Init != nil || x.Else != nil || len(x.Body.List) != 1 {
+			return
+		}
+		switch b := x.Body.List[0].(type) {
+		case *ast.BranchStmt:
+			if b.Tok != token.CONTINUE {
+				return
+			}
+		case *ast.ReturnStmt:
+		default:
+			return
+		}
+		be, ok := x.Cond.(*ast.BinaryExpr)
+		if !ok || be.Op != token.EQL {
+			return
+		}
+		var id *ast.Ident
+		if i, ok := be.X.(*ast.Ident); ok {
+			if lit, ok := be.Y.(*ast.BasicLit); ok && lit.Value == "0" {
+				id = i
+			}
+		}
+		if i, ok := be.Y.(*ast.Ident); ok {
+			if lit, ok := be.X.(*ast.BasicLit); ok && lit.Value == "0" {
+				id = i
+			}
+		}
+		if id == nil {
+			return
+		}
+		if obj, ok := stopVars[id.Name]; ok {
+			g := map[string]bool{}
+			for k := range lw.stopGuarded {
+				g[k] = true
+			}
+			g[obj] = true
+			lw.stopGuarded = g
+		}
+	}
 }
 
 func (lw *lgWalker) branches(held []heldLock, bodies [][]ast.Stmt, hasDefault bool) ([]heldLock, bool) {
